@@ -1,6 +1,7 @@
-(* C01 — unedited read -> write denotes the same problem.  Headline theorems only. *)
-From Coq Require Import List String.
-From MPV Require Import Model.Tree Model.Wrap Proofs.TreeProofs Proofs.WrapProofs.
+(* C01 — unedited read -> write denotes the same problem.  Headline theorems only (proofs: Proofs/TreeProofs.v; line wrapping is property C10's model, Model/Wrap.v).  The parsers are not modelled: [as_parsed] / [unedited] are hypotheses about the tree they
+   build, checked on every generated input by the correspondence (harness/props/_rtcommon.py). *)
+From Coq Require Import List String Ascii.
+From MPV Require Import Model.Tree Proofs.TreeProofs.
 Import ListNotations.
 Open Scope string_scope.
 
@@ -16,13 +17,25 @@ Theorem C01_format_unchanged_tree : forall n,
 Proof. exact format_unchanged_tree. Qed.
 Print Assumptions C01_format_unchanged_tree.
 
-(* a line that already fits the limit passes the wrapper unchanged *)
-Theorem C01_wrap_identity : forall W ii si chunks,
-  chunks <> [] -> Forall (fun c => c <> "") chunks ->
-  slen ii + slen (String.concat "" chunks) <= W ->
-  wrap_chunks W ii si chunks = Some [ii ++ String.concat "" chunks].
-Proof. exact wrap_identity. Qed.
-Print Assumptions C01_wrap_identity.
+(* every input of the problem, in the same order: nothing is dropped, duplicated or moved *)
+Theorem C01_all_cards_as_read : forall cards,
+  forallb (fun c => andb (unedited c) (as_parsed c)) cards = true -> format_all cards = map flatten cards.
+Proof. exact all_cards_as_read. Qed.
+Print Assumptions C01_all_cards_as_read.
+
+(* Cell.format_for_mcnp_input re-assembles the cell from its parameters: whatever was written so far, the next
+   parameter is appended after white space: it is never fused with the token before it ... *)
+Theorem C01_parameter_never_fused : forall ret, ends_ws (cleanup_last_line ret) = true.
+Proof. exact cleanup_separates. Qed.
+Print Assumptions C01_parameter_never_fused.
+
+(* ... and after a comment or a '&' it starts a continuation line of its own (it cannot become a part of the
+   comment, and the '&' stays the last thing on its line) *)
+Theorem C01_parameter_after_comment_on_new_line : forall ret,
+  orb (orb (is_comment_line (last_line ret)) (has_char "$"%char (last_line ret))) (ends_amp (last_line ret)) = true ->
+  exists x, cleanup_last_line ret = x ++ nl ++ cont5.
+Proof. exact cleanup_new_line. Qed.
+Print Assumptions C01_parameter_after_comment_on_new_line.
 
 (* block structure of the written file under MCNP's blank-line rule: the title and the cell cards,
    the surface cards, the data cards together with the cell-modifier child cards, then nothing:
@@ -37,7 +50,7 @@ Theorem C01_writer_blocks : forall title cells surfaces data children,
 Proof. exact writer_blocks. Qed.
 Print Assumptions C01_writer_blocks.
 
-(* the order write_to_file used before the fix: commit (terminator, then child cards) loses the child cards *)
+(* the order write_to_file used before fc62622 (terminator, then child cards) loses the child cards *)
 Theorem C01_children_after_terminator_refuted :
   exists title cells surfaces data children,
     nonblank_all (List.concat cells) /\ nonblank_all (List.concat surfaces) /\
@@ -49,7 +62,18 @@ Theorem C01_children_after_terminator_refuted :
 Proof. exact writer_children_after_terminator_refuted. Qed.
 Print Assumptions C01_children_after_terminator_refuted.
 
-(* hypotheses are satisfiable: a concrete parsed-shape tree *)
-Example C01_nonvacuous : unedited ex_tree = true /\ as_parsed ex_tree = true.
-Proof. exact ex_tree_hyps. Qed.
+(* hypotheses are satisfiable: a concrete parsed-shape tree (skipped value, classifier with particles, list with
+   padding node and shortcut, '$' comment) and a problem of three cards *)
+Example C01_nonvacuous :
+  unedited ex_tree = true /\ as_parsed ex_tree = true /\
+  forallb (fun c => andb (unedited c) (as_parsed c)) ex_cards = true.
+Proof. destruct ex_tree_hyps. split; [assumption|]. split; [assumption|exact ex_all_cards]. Qed.
 Print Assumptions C01_nonvacuous.
+
+Example C01_cleanup_examples :
+  cleanup_last_line ("1 0 -1 $ c" ++ nl) = "1 0 -1 $ c" ++ nl ++ cont5 /\
+  cleanup_last_line "1 0 -1 imp:n=1 &" = "1 0 -1 imp:n=1 &" ++ nl ++ cont5 /\
+  cleanup_last_line "1 0 -1" = "1 0 -1 " /\
+  cell_text [CNode (NO "1 0 -1 "); CMod "imp:n=1 &"; CParam (NO "tmp=1 &")] = "1 0 -1 imp:n=1 &" ++ nl ++ cont5 ++ "tmp=1 ".
+Proof. exact ex_cleanup. Qed.
+Print Assumptions C01_cleanup_examples.
